@@ -375,6 +375,8 @@ func Verif_C05_W6_SaveBookkeeping() {
 			}
 			if !empty {
 				wantTypes = append(wantTypes, stateType)
+				// the cached state is what cut() writes at the head of the next segment: it must be the newest one
+				vsym.Assert(w.state.Term == st.Term && w.state.Vote == st.Vote && w.state.Commit == st.Commit, "after Save the cached hard state (written at the head of the next segment) is the saved one")
 			}
 			if !(empty && len(ents) == 0) {
 				must := len(ents) != 0 || st.Vote != prev.Vote || st.Term != prev.Term
